@@ -239,3 +239,39 @@ Proof.
   - rewrite <- E1. reflexivity.
   - specialize (E2 ltac:(discriminate)). injection E2 as El Er. rewrite <- El. rewrite <- Er. reflexivity.
 Qed.
+
+(* ---------- one insertion, as a step of the state machine ---------- *)
+(* inserting w into the trie of any history changes the membership of w (when w is not empty) and of NOTHING else *)
+Theorem contains_insert_step ws w v :
+  contains (insert (build ws) w) v = contains (build ws) v || (negb (is_nil w) && weqb v w).
+Proof.
+  replace (insert (build ws) w) with (build (ws ++ [w])) by (unfold build; rewrite fold_left_app; reflexivity).
+  apply Bool.eq_iff_eq_true.
+  rewrite contains_build_iff, orb_true_iff, contains_build_iff, andb_true_iff, negb_true_iff, weqb_eq, in_app_iff.
+  split.
+  - intros [Hn [Hi|[Hw|[]]]].
+    + left. split; assumption.
+    + right. subst v. split; [destruct w; [congruence | reflexivity] | reflexivity].
+  - intros [[Hn Hi]|[Hn Hw]].
+    + split; [assumption | left; assumption].
+    + subst v. split; [destruct w; [simpl in Hn; discriminate | discriminate] | right; left; reflexivity].
+Qed.
+
+(* inserting a word that is already there, or the empty word, changes no answer of any query *)
+Corollary insert_present_is_noop ws w p :
+  w = [] \/ In w ws ->
+  snd (prefix_all (insert (build ws) w) p) = snd (prefix_all (build ws) p)
+  /\ (forall v, contains (insert (build ws) w) v = contains (build ws) v).
+Proof.
+  intro Hw.
+  replace (insert (build ws) w) with (build (ws ++ [w])) by (unfold build; rewrite fold_left_app; reflexivity).
+  assert (Hsame : forall x, x <> [] -> (In x (ws ++ [w]) <-> In x ws)).
+  { intros x Hx. rewrite in_app_iff. split; [|intro H; left; exact H].
+    intros [H|[H|[]]]; [exact H|]. subst x. destruct Hw as [E|Hi]; [congruence | exact Hi]. }
+  split.
+  - destruct (prefix_all_refines_spec (ws ++ [w]) p) as [E1 _]. destruct (prefix_all_refines_spec ws p) as [E2 _].
+    rewrite E1, E2. simpl. apply sorted_same_elements; try apply sorted_set_sorted.
+    intro x. rewrite !spec_words_In. split; intros [H1 [H2 H3]]; (split; [exact H1 | split; [apply (Hsame x H1); exact H2 | exact H3]]).
+  - intro v. apply Bool.eq_iff_eq_true. rewrite !contains_build_iff.
+    split; intros [H1 H2]; (split; [exact H1 | apply (Hsame v H1); exact H2]).
+Qed.
